@@ -228,7 +228,7 @@ def gen_ints(batch, res):
     if batch.get("n"):
         res.nontrivial.add("ints:random:" + h(batch["seed"], res.counters.get("varint_roundtrips", 0) > 0))
     # arbitrary bytes into the varint decoder
-    for _ in range(batch.get("nbytes", 0)):
+    for _ in range(batch.get("nbytes", 0) if cx.only is None else 0):
         data = G.rbytes(rng, rng.randrange(0, 10))
         res.evaluations += 1
         res.nontrivial.add("varint:bytes:" + check_bytes("varint", data, None, res, "random"))
@@ -325,7 +325,7 @@ def gen_ack_random(batch, res):
             for kind, mut in mutate_cases(data, [], rng, nflips=12):
                 res.evaluations += 1
                 res.nontrivial.add("ack:bytes:%s:%s" % (kind, check_bytes("ack", mut, None, res, kind)))
-    for _ in range(batch.get("nbytes", 0)):
+    for _ in range(batch.get("nbytes", 0) if cx.only is None else 0):
         data = G.rbytes(rng, rng.randrange(0, 40))
         res.evaluations += 1
         res.nontrivial.add("ack:bytes:random:" + check_bytes("ack", data, None, res, "random"))
